@@ -19,7 +19,9 @@ theorem cn_addConstraintsLoop_cons (g : Grid) (c : Con) (cs : List Con) :
       else if (addConstraintNoCheck g c).g.markedEmpty = true then addConstraintNoCheck g c
       else addConstraintsLoop (addConstraintNoCheck g c).g cs := rfl
 
-/-- the loop of `add_constraints` on a grid that is not marked empty: without a throw the grid is cut by every
+/-- (before 7218b6b the call applied the prefix and then threw; now `add_constraints` validates the whole system first, so
+    the throwing branch of the loop is unreachable from it)
+    the loop of `add_constraints` on a grid that is not marked empty: without a throw the grid is cut by every
     constraint (the loop stops early on a grid that became empty); a throw happens at the first non-trivial inequality
     `c`, and the object has then been cut by the constraints before `c` -/
 theorem cn_addConstraintsLoop (hUC : UpdateCongruencesSpec) (cs : List Con) :
@@ -61,32 +63,90 @@ theorem cn_addConstraintsLoop (hUC : UpdateCongruencesSpec) (cs : List Con) :
         · obtain ⟨pre, c', post, hcs, hh, hs⟩ := i4 h
           exact ⟨c :: pre, c', post, by rw [hcs]; rfl, hh, by rw [hs, hsem, cn_consSetL_cons, Set.inter_assoc]⟩
 
-/-- Grid_public.cc:1266 `add_constraints(cs)` -/
-theorem cn_addConstraints (hUC : UpdateCongruencesSpec) (g : Grid) (csDim : Nat) (cs : List Con) (hI : GridInv g)
-    (hok : csDim ≤ g.spaceDim → ∀ c ∈ cs, cn_ConOK g.spaceDim g.sem c) :
-    (g.spaceDim < csDim → (addConstraints g csDim cs).thrown = true ∧ (addConstraints g csDim cs).g = g) ∧
-    (g.st.empty = true → (addConstraints g csDim cs).g = g) ∧
-    GridInv (addConstraints g csDim cs).g ∧ (addConstraints g csDim cs).g.spaceDim = g.spaceDim ∧
-    ((addConstraints g csDim cs).thrown = false → (addConstraints g csDim cs).g.sem = g.sem ∩ cn_consSetL cs) ∧
-    ((addConstraints g csDim cs).thrown = true → g.spaceDim < csDim ∨ (g.st.empty = false ∧
-      ∃ pre c post, cs = pre ++ c :: post ∧ cn_hardIneq c = true ∧
-        (addConstraints g csDim cs).g.sem = g.sem ∩ cn_consSetL pre)) ∧
-    (csDim ≤ g.spaceDim → (∀ c ∈ cs, cn_hardIneq c = false) → (addConstraints g csDim cs).thrown = false) := by
-  unfold addConstraints
+/-- `add_constraint_no_check` throws exactly on a non-trivial inequality (control flow only) -/
+theorem cn_noCheck_thrown_iff (g : Grid) (c : Con) : (addConstraintNoCheck g c).thrown = true ↔ cn_hardIneq c = true := by
+  unfold addConstraintNoCheck cn_hardIneq
+  cases c.isEquality <;> cases c.inconsistent <;> cases c.tautological <;> simp
+
+theorem cn_loop_not_thrown (cs : List Con) (h : ∀ c ∈ cs, cn_hardIneq c = false) :
+    ∀ g : Grid, (addConstraintsLoop g cs).thrown = false := by
+  induction cs with
+  | nil => intro g; rfl
+  | cons c cs ih =>
+    intro g
+    rw [cn_addConstraintsLoop_cons]
+    have hnt : ¬ (addConstraintNoCheck g c).thrown = true := fun ht => by
+      have := (cn_noCheck_thrown_iff g c).mp ht
+      rw [h c (List.mem_cons_self ..)] at this; cases this
+    rw [if_neg hnt]
+    split
+    · simpa using hnt
+    · exact ih (fun c' hc' => h c' (List.mem_cons_of_mem _ hc')) _
+
+theorem cn_any_hard_iff (cs : List Con) : cs.any Con.isHardInequality = true ↔ ∃ c ∈ cs, cn_hardIneq c = true := by
+  rw [List.any_eq_true]; rfl
+
+/-- Grid_public.cc:1266 `add_constraints(cs)` (after 7218b6b): a rejected call leaves the object unchanged — a fact about
+    the control flow only -/
+theorem cn_addConstraints_rejected_unchanged (g : Grid) (csDim : Nat) (cs : List Con)
+    (h : (addConstraints g csDim cs).thrown = true) : (addConstraints g csDim cs).g = g := by
+  unfold addConstraints at h ⊢
   by_cases hd : g.spaceDim < csDim
   · rw [if_pos hd]
-    exact ⟨fun _ => ⟨rfl, rfl⟩, fun _ => rfl, hI, rfl, (fun h => by cases h), fun _ => Or.inl hd, fun h => by omega⟩
-  · rw [if_neg hd]
-    by_cases hemp : g.st.empty = true
-    · have : g.markedEmpty = true := hemp
-      rw [if_pos this]
-      refine ⟨fun h => absurd h hd, fun _ => rfl, hI, rfl, fun _ => ?_, (fun h => by cases h), fun _ _ => rfl⟩
-      rw [cn_sem_empty g hemp, Set.empty_inter]
-    · have hne : g.st.empty = false := by simpa using hemp
-      have : ¬ (g.markedEmpty = true) := hemp
-      rw [if_neg this]
-      obtain ⟨h1, h2, h3, h4, h5⟩ := cn_addConstraintsLoop hUC cs g hI hne (hok (by omega))
-      exact ⟨fun h => absurd h hd, fun h => absurd h hemp, h1, h2, h3, fun h => Or.inr ⟨hne, h4 h⟩, fun _ => h5⟩
+  · rw [if_neg hd] at h ⊢
+    by_cases hh : cs.any Con.isHardInequality = true
+    · rw [if_pos hh]
+    · rw [if_neg hh] at h ⊢
+      by_cases hm : g.markedEmpty = true
+      · rw [if_pos hm]
+      · rw [if_neg hm] at h
+        have hall : ∀ c ∈ cs, cn_hardIneq c = false := fun c hc => by
+          by_contra hc'
+          exact hh ((cn_any_hard_iff cs).mpr ⟨c, hc, by simpa using hc'⟩)
+        rw [cn_loop_not_thrown cs hall g] at h; cases h
+
+/-- Grid_public.cc:1266 `add_constraints(cs)` (after 7218b6b): throws exactly on a dimension mismatch or when the system
+    holds a non-trivial inequality, and then the object is unchanged; otherwise the grid is cut by every constraint -/
+theorem cn_addConstraints (hUC : UpdateCongruencesSpec) (g : Grid) (csDim : Nat) (cs : List Con) (hI : GridInv g)
+    (hok : csDim ≤ g.spaceDim → ∀ c ∈ cs, cn_ConOK g.spaceDim g.sem c) :
+    ((addConstraints g csDim cs).thrown = true ↔ (g.spaceDim < csDim ∨ ∃ c ∈ cs, cn_hardIneq c = true)) ∧
+    ((addConstraints g csDim cs).thrown = true → (addConstraints g csDim cs).g = g) ∧
+    (g.st.empty = true → (addConstraints g csDim cs).g = g) ∧
+    GridInv (addConstraints g csDim cs).g ∧ (addConstraints g csDim cs).g.spaceDim = g.spaceDim ∧
+    ((addConstraints g csDim cs).thrown = false → (addConstraints g csDim cs).g.sem = g.sem ∩ cn_consSetL cs) := by
+  refine ⟨?_, cn_addConstraints_rejected_unchanged g csDim cs, ?_⟩
+  · unfold addConstraints
+    by_cases hd : g.spaceDim < csDim
+    · rw [if_pos hd]; exact ⟨fun _ => Or.inl hd, fun _ => rfl⟩
+    · rw [if_neg hd]
+      by_cases hh : cs.any Con.isHardInequality = true
+      · rw [if_pos hh]; exact ⟨fun _ => Or.inr ((cn_any_hard_iff cs).mp hh), fun _ => rfl⟩
+      · rw [if_neg hh]
+        have hall : ∀ c ∈ cs, cn_hardIneq c = false := fun c hc => by
+          by_contra hc'
+          exact hh ((cn_any_hard_iff cs).mpr ⟨c, hc, by simpa using hc'⟩)
+        have hnot : ¬ (g.spaceDim < csDim ∨ ∃ c ∈ cs, cn_hardIneq c = true) := by
+          rintro (h | ⟨c, hc, h⟩)
+          · exact hd h
+          · rw [hall c hc] at h; cases h
+        by_cases hm : g.markedEmpty = true
+        · rw [if_pos hm]; exact ⟨(fun h => by cases h), fun h => absurd h hnot⟩
+        · rw [if_neg hm, cn_loop_not_thrown cs hall g]; exact ⟨(fun h => by cases h), fun h => absurd h hnot⟩
+  · unfold addConstraints
+    by_cases hd : g.spaceDim < csDim
+    · rw [if_pos hd]; exact ⟨fun _ => rfl, hI, rfl, (fun h => by cases h)⟩
+    · rw [if_neg hd]
+      by_cases hh : cs.any Con.isHardInequality = true
+      · rw [if_pos hh]; exact ⟨fun _ => rfl, hI, rfl, (fun h => by cases h)⟩
+      · rw [if_neg hh]
+        by_cases hemp : g.st.empty = true
+        · rw [if_pos (show g.markedEmpty = true from hemp)]
+          refine ⟨fun _ => rfl, hI, rfl, fun _ => ?_⟩
+          rw [cn_sem_empty g hemp, Set.empty_inter]
+        · have hne : g.st.empty = false := by simpa using hemp
+          rw [if_neg (show ¬ (g.markedEmpty = true) from hemp)]
+          obtain ⟨h1, h2, h3, _, _⟩ := cn_addConstraintsLoop hUC cs g hI hne (hok (by omega))
+          exact ⟨fun h => absurd h hemp, h1, h2, h3⟩
 
 /-! ### `refine_with_constraints` -/
 
